@@ -1,5 +1,5 @@
 """C04 - constraints hold and output is finite at every stopping point."""
-from .solver_common import run_parallel
+from .solver_common import run_parallel, run_bbox
 
 LEAN_MODULES = ["Skglm.Properties.C04", "Skglm.Properties.C04Run"]
 COMBOS = [("quadratic", "l1"), ("quadratic", "l1l2"), ("quadratic", "wl1"), ("quadratic", "mcp"),
@@ -13,6 +13,7 @@ def run(ctx, rep):
                 "level (prox feasibility) of C07's correspondence; non-trivial = at least one outer iteration")
     run_parallel(ctx, rep, oracles=["feasible"], gen_opts=dict(force_positive=True), combos=COMBOS,
                  n_quick=25, n_thorough=300)
+    run_bbox(ctx, rep, oracles=["feasible"], solvers_=["ProxNewton", "GramCD", "GroupBCD", "GroupProxNewton", "FISTA"])
 
 
 def replay(ctx, payload):
